@@ -383,6 +383,44 @@ def magic_twins(master, produced):
     return out
 
 
+def _reencode_child(paths):
+    """equivalent re-encodings of valid files: a flagged 32-bit int 0 (e9 00 00 00 00) at an object start becomes
+    a flagged zero-size long (ec 00 00 00 00) - the same value for every marshal reader"""
+    out = []
+    for p in paths:
+        with open(p, "rb") as f:
+            data = f.read()
+        om = corpus.object_map(data)
+        hits = [o for o in sorted(om) if data[o:o + 5] == b"\xe9\x00\x00\x00\x00"]
+        if hits:
+            b = bytearray(data)
+            for o in hits:
+                b[o] = 0xEC
+            out.append([p, core.b64(bytes(b)), len(hits)])
+    return out
+
+
+def reencoded_twins(produced):
+    cands = [b.path for b in produced if b.magic_int in set(W["host_magic"].values()) and ".ts." in b.name and
+             len(b.data) < 6000][:400]
+    r = core.fork_call(_reencode_child, (cands,), timeout=300)
+    if r.status != "ok":
+        return []
+    out = []
+    tdir = os.path.join(W["rundir"], "reenc")
+    os.makedirs(tdir, exist_ok=True)
+    by_path = dict((b.path, b) for b in produced)
+    for p, b64, n in r.value[:40]:
+        src = by_path[p]
+        data = core.unb64(b64)
+        name = "longzero_" + src.name
+        pth = os.path.join(tdir, "%d-%s" % (src.magic_int, name))
+        with open(pth, "wb") as f:
+            f.write(data)
+        out.append(corpus.BaseFile(name, pth, data, "reencoded:longzero:%d" % n))
+    return out
+
+
 def prepare(master, tier, cfg):
     core.verify_xdis_origin()
     W["rundir"] = os.path.join(core.scratch_dir(), "c07")
@@ -402,6 +440,7 @@ def prepare(master, tier, cfg):
     produced = corpus.produce_corpus(master, cfg["produce"][0], cfg["produce"][1])
     bases = corpus.repo_corpus() + produced
     bases += magic_twins(master, produced)
+    bases += reencoded_twins(produced)
     bases.sort(key=lambda b: (b.origin, b.path))
     # dedupe by content
     seen = set()
@@ -424,9 +463,10 @@ def prepare(master, tier, cfg):
                 return 0
             if stress and (".ts." in b.name):
                 return 1
-            if b.origin.startswith("twin"):
+            if b.origin.startswith("twin") or b.origin.startswith("reencoded"):
                 return 2
-            if stress or ".dup." in b.name or ".exc." in b.name or ".uset." in b.name:
+            if stress or any(x in b.name for x in (".dup.", ".exc.", ".uset.", ".badpath.", ".dictconst.")) or \
+                    b.origin.startswith("reencoded"):
                 return 3
             if b.magic_int in hm:
                 return 4
